@@ -31,6 +31,15 @@ Tree.declare("Op", ("op", S), ("l", Tree), ("r", Tree))
 Tree = Tree.create()
 
 
+REC_DEFS = {}      # name -> (function, parameters, body): recursive specification functions whose definition may be unfolded as a hint
+
+
+def rec_define(f, params, body):
+    """z3.RecAddDefinition plus a record of the definition (the solver front end adds unfoldings of applications it sees as hints)"""
+    z3.RecAddDefinition(f, params, body)
+    REC_DEFS[f.name()] = (f, list(params), body if z3.is_expr(body) else z3.BoolVal(bool(body)))
+
+
 def U(s):
     return z3.Unit(z3.StringVal(s))
 
